@@ -251,12 +251,15 @@ def relsExpr (s : St) (p : Path) (rels : Rels) : Bool :=
 
 /-- what is a step of the machine.  Handles are opaque and component IDs are obtained by
     registration, so an operation on a handle that no `new` returned, or adding an unregistered
-    component ID, is not a step.  Relation arguments must be well-formed (`RelsWF`; for
-    `setrel`: no component twice): the model accepts a relation component named twice and
-    breaks its invariants (finding 1 of `Props/C04World.lean`; for `SetRelations` see § 7 (e) of
-    `Props/C04Hist.lean`), and it creates the archetype before it notices a missing relation.  A dead target IS a step of `setrel` (any path) and of
-    `new` / `add` through a typed path (it is rejected without effect); of `new` / `add` through
-    `Unsafe` it is not (`relsExpr`): the archetype is created before the target is checked. -/
+    component ID, is not a step.  The relation arguments of `new` / `add` must be well-formed
+    (`RelsWF`): the model creates the archetype before `createTable` notices a relation component
+    named twice (refused with `relTwice` since the repair of defect D18; accepted before), a
+    missing relation or a non-relation component — such a call is refused, but not without
+    effect.  `setrel` has no such restriction: a relation component named twice (refused since
+    the repair of defect D19), a component the entity lacks and a dead target are rejected
+    without effect on every path.  A dead target IS a step of `new` / `add` through a typed path
+    (it is rejected without effect); through `Unsafe` it is not (`relsExpr`): the archetype is
+    created before the target is checked. -/
 def guard (s : St) : Op → Bool
   | .reg _ _ _ => true
   | .new p ids _ rels =>
@@ -266,8 +269,7 @@ def guard (s : St) : Op → Bool
     decide (e ∈ s.issued) && (ids.all fun c => decide (c < s.ss.zst.length)) &&
       decide (RelsWF s.ss.isRel ids rels) && relsExpr s p rels
   | .rem _ e _ => decide (e ∈ s.issued)
-  | .setrel _ e rels =>
-    decide (e ∈ s.issued) && decide ((rels.map (·.comp)).Nodup) && tgtsExpr s rels
+  | .setrel _ e rels => decide (e ∈ s.issued) && tgtsExpr s rels
   | .set e _ => decide (e ∈ s.issued)
   | .del e => decide (e ∈ s.issued)
 
